@@ -22,7 +22,7 @@ from ..oracle import cstread
 from .c12 import ALPHABET
 
 GEN_TABLES = ("escape", "max_inline_width", "auto_multiline", "single_binding", "literals", "coerce_order",
-              "list_item_paren")
+              "list_item_paren", "float_literal")
 
 NIX_INT_MAX = 2**63 - 1
 INTS = [0, 1, -1, 42, -7, 10, 2**31, -(2**31) - 1, NIX_INT_MAX, -NIX_INT_MAX, 2**63, -(2**63), 10**30]
@@ -328,10 +328,6 @@ def culprits(v, in_list=False, acc=None):
     if isinstance(v, int):
         if abs(v) > NIX_INT_MAX:
             acc.add("int-out-of-range")
-    elif isinstance(v, float):
-        r = repr(v)
-        if "." not in r:
-            acc.add("float-exponent-no-dot")
     elif isinstance(v, list):
         for x in v:
             culprits(x, True, acc)
@@ -341,21 +337,16 @@ def culprits(v, in_list=False, acc=None):
     return acc
 
 
-PRIORITY = ["float-exponent-no-dot", "int-out-of-range"]
+PRIORITY = ["int-out-of-range"]
 
 
 def neutralise(v, in_list=False):
     """The same value with every culprit replaced by a harmless stand-in of the same type."""
-    if isinstance(v, bool) or v is None or isinstance(v, str):
+    if isinstance(v, bool) or v is None or isinstance(v, (str, float)):
         return v
     if isinstance(v, int):
         if abs(v) > NIX_INT_MAX:
             return 7
-        return v
-    if isinstance(v, float):
-        r = repr(v)
-        if "." not in r:
-            return 2.5
         return v
     if isinstance(v, list):
         return [neutralise(x, True) for x in v]
